@@ -18,7 +18,10 @@ RULE = ('kind split: a random file is cut along a random dimension into 1..4 con
         'files sharing all other dimensions, with their own data and stack-dimension lengths, variables '
         'without the stack dimension, masked variables, non-leading stack axes; malformed: a file lacking a '
         'variable / the stack dimension / with a differing shared dimension; non-trivial = at least two '
-        'pieces and a variable whose stack axis is not the first')
+        'pieces and a variable whose stack axis is not the first; the multi-file front ends pncmfopen and open_mfdataset (with and without stackdim) open the same '
+        'pieces from paths whose argument order is not the sorted order, also with repeated paths, and must give the model\'s stack of that sequence; '
+        'later files may carry extra global attributes (the result has the first file\'s); IOAPI files are cut along TSTEP or LAY, the pieces '
+        'saved and stacked again (method and pncmfopen): data, TFLAG, SDATE/STIME/TSTEP, VGLVLS/NLAYS must equal the original')
 ASSUMPTIONS = ['numpy.ma.concatenate behaves as list concatenation along the axis']
 MIN_NONTRIVIAL = {'quick': 60, 'thorough': 600}
 
@@ -71,6 +74,8 @@ def _case(rng):
             elif rng.random() < 0.3:
                 # a different value in a later file for a variable without the stack dimension
                 v['data'] = [77000 + t if x is not None else None for t, x in enumerate(v['data'])]
+        if i > 0 and rng.random() < 0.5:
+            s2['attrs'] = list(s2['attrs']) + ['later%d' % i]      # global attributes come from the first file
         files.append(s2)
     if kind == 'bad':
         m = rng.choice(['novar', 'nodim', 'shared'])
@@ -89,15 +94,87 @@ def _case(rng):
                 for vi, v in enumerate(files[j]['vars']):
                     size = int(np.prod([dl[x] for x in v['dims']])) if v['dims'] else 1
                     v['data'] = [90000 + 100 * vi + t for t in range(size)]
-    return dict(kind=kind, dim=dim, files=files)
+    order = list(range(k))
+    if kind == 'indep' and rng.random() < 0.4:
+        # the multi-file front ends are also given repeated paths and paths in any order
+        order = [rng.randrange(k) for _ in range(rng.randint(2, 4))]
+    return dict(kind=kind, dim=dim, files=files, mf_order=order)
+
+
+def _ioapi_case(rng):
+    """an IOAPI file cut along TSTEP or LAY into pieces that are saved and stacked again (method and pncmfopen)"""
+    from . import c10
+    src = c10._src(rng)
+    src.update(kind='arrays', nt=rng.randint(2, 5), nl=rng.randint(2, 3), withcf=False)
+    dim = rng.choice(['TSTEP', 'LAY'])
+    n = src['nt'] if dim == 'TSTEP' else src['nl']
+    k = rng.randint(2, min(3, n))
+    cuts = sorted(rng.sample(range(1, n), k - 1))
+    return dict(kind='ioapi', dim=dim, src=src, edges=[0] + cuts + [n], files=[])
 
 
 def gen(rng, tier):
     n = 300 if tier == 'quick' else 8000
-    return [_case(rng) for _ in range(n)]
+    out = [_case(rng) for _ in range(n)]
+    out += [_ioapi_case(rng) for _ in range(n // 12)]
+    return out
+
+
+def _impl_ioapi(case):
+    import os
+    import shutil
+    import tempfile
+    import PseudoNetCDF as pnc
+    from . import c10
+    d = tempfile.mkdtemp(prefix='pncverif_c04i_')
+    try:
+        with lib.pnc_warnings():
+            f, _ = c10.build(case['src'])
+            dim = case['dim']
+            res = dict(orig=c10.obs(f), data={k: np.asarray(v[...]).tolist() for k, v in f.variables.items()})
+            pieces, paths = [], []
+            for i, (a, b) in enumerate(zip(case['edges'][:-1], case['edges'][1:])):
+                pc = f.sliceDimensions(**{dim: slice(a, b)})
+                pieces.append(pc)
+                p = os.path.join(d, 'piece_%d.nc' % (9 - i))
+                pc.save(p, format='NETCDF3_CLASSIC', verbose=0).close()
+                paths.append(p)
+            outs = {}
+            o = pieces[0].stack(pieces[1:], dim)
+            outs['stack'] = o
+            outs['pncmfopen'] = pnc.pncmfopen(paths, format='ioapi', stackdim=dim)
+            for nm, g in outs.items():
+                res[nm] = dict(st=c10.obs(g), bad=c10.coherent(g),
+                               data={k: np.asarray(v[...]).tolist() for k, v in g.variables.items()})
+            return res
+    except lib.HarnessError:
+        raise
+    except Exception as e:
+        return dict(err=type(e).__name__, msg=str(e)[:100])
+    finally:
+        shutil.rmtree(d, True)
+
+
+def _oracle_ioapi(case, res):
+    if 'err' in res:
+        return 'splitting and stacking an IOAPI file raised %s %s' % (res['err'], res.get('msg'))
+    o = res['orig']
+    for nm in ('stack', 'pncmfopen'):
+        g = res[nm]
+        if g['bad']:
+            return '%s of the pieces along %s: %s' % (nm, case['dim'], '; '.join(g['bad']))
+        for k in ('nT', 'nL', 'nR', 'nC', 'vglvls', 'sdate', 'stime', 'tstep', 'tflag', 'nvars', 'varlist', 'nlays', 'nrows', 'ncols'):
+            if str(g['st'][k]) != str(o[k]):
+                return '%s of the pieces along %s: %s is %s, the original file has %s' % (nm, case['dim'], k, g['st'][k], o[k])
+        for k, v in res['data'].items():
+            if g['data'].get(k) != v:
+                return '%s of the pieces along %s: data of %s differ from the original' % (nm, case['dim'], k)
+    return None
 
 
 def impl(case):
+    if case['kind'] == 'ioapi':
+        return _impl_ioapi(case)
     fs = [pfile.build(s) for s in case['files']]
     res = {}
     try:
@@ -112,6 +189,11 @@ def impl(case):
             res['back'] = back
     except Exception as e:
         return dict(err=type(e).__name__, msg=str(e)[:100])
+    if case['kind'] != 'bad':
+        try:
+            res.update(_multifile(case))
+        except Exception as e:
+            res['mf_err'] = '%s: %s' % (type(e).__name__, str(e)[:80])
     # the legacy functional front-end must agree with the method (it has no error handling: conforming input only)
     if case['kind'] != 'bad':
         try:
@@ -129,7 +211,66 @@ def impl(case):
     return res
 
 
+_SPECFILE = None
+
+
+def _specfile_class():
+    """a reader whose files are JSON specs (the multi-file front ends open paths)"""
+    global _SPECFILE
+    if _SPECFILE is None:
+        import json
+        import PseudoNetCDF as pnc
+
+        def init(self, path, *a, **k):
+            f = pfile.build(json.load(open(path)))
+            for dk, dv in f.dimensions.items():
+                self.copyDimension(dv, key=dk)
+            for vk, vv in f.variables.items():
+                self.copyVariable(vv, key=vk)
+            for ak in f.ncattrs():
+                setattr(self, ak, getattr(f, ak))
+        _SPECFILE = type('specjson', (pnc.PseudoNetCDFFile,), dict(__module__='harness.readers', __qualname__='specjson',
+                                                                  __init__=init))
+    return _SPECFILE
+
+
+def _multifile(case):
+    """pncmfopen and open_mfdataset on paths given in an order that is not lexicographic, possibly with repeats"""
+    import json
+    import os
+    import shutil
+    import tempfile
+    import PseudoNetCDF as pnc
+    cls = _specfile_class()
+    d = tempfile.mkdtemp(prefix='pncverif_c04_')
+    try:
+        paths = []
+        for i, sp in enumerate(case['files']):
+            p = os.path.join(d, 'part_%d.specjson' % (12 - 3 * i))      # 12, 9, 6, 3: argument order is not sorted order
+            json.dump(sp, open(p, 'w'))
+            paths.append(p)
+        order = case.get('mf_order') or list(range(len(paths)))
+        args = [paths[i] for i in order]
+        out = {}
+        with lib.pnc_warnings():
+            o1 = pnc.pncmfopen(args, format='specjson', stackdim=case['dim'])
+            out['mf1'] = pfile.observe(o1)
+            o2 = cls.open_mfdataset(*args, stackdim=case['dim'])
+            out['mf2'] = pfile.observe(o2)
+            # default stack dimension: the unlimited one, else a time-like name
+            f0 = case['files'][order[0]]
+            auto = [dm[0] for dm in f0['dims'] if dm[2]] or [dm[0] for dm in f0['dims'] if dm[0] in ('TSTEP', 'time', 'Time', 't')]
+            if auto and auto[0] == case['dim']:
+                o3 = cls.open_mfdataset(*args)
+                out['mf3'] = pfile.observe(o3)
+        return out
+    finally:
+        shutil.rmtree(d, True)
+
+
 def to_line(case, res):
+    if case['kind'] == 'ioapi':
+        return 'c04 stack 0 x'          # no model question: judged against the original file
     toks = []
     for s in case['files']:
         toks += list(pfile.encode(s))
@@ -137,6 +278,8 @@ def to_line(case, res):
 
 
 def agree(case, out, res):
+    if case['kind'] == 'ioapi':
+        return None
     if 'err' in res:
         return None if out.startswith('err') else 'impl raised %s (%s), model %s' % (res['err'], res.get('msg'), out[:80])
     if not out.startswith('ok '):
@@ -150,6 +293,23 @@ def agree(case, out, res):
             return 'stack_files (legacy front-end): ' + d
     elif 'legacy_err' in res:
         return 'stack_files (legacy front-end) raised %s' % res['legacy_err']
+    if 'mf_err' in res:
+        return 'multi-file front end raised %s' % res['mf_err']
+    if 'mf1' in res:
+        order = case.get('mf_order') or list(range(len(case['files'])))
+        ref = out
+        if order != list(range(len(case['files']))):
+            toks = []
+            for i in order:
+                toks += list(pfile.encode(case['files'][i]))
+            ref = lib.run_model(['c04 stack %d %s %s' % (len(order), ' '.join(toks), case['dim'])])[0]
+        if not ref.startswith('ok '):
+            return 'model %s for the multi-file order %s' % (ref[:60], order)
+        for k, nm in (('mf1', 'pncmfopen'), ('mf2', 'open_mfdataset'), ('mf3', 'open_mfdataset without stackdim')):
+            if k in res:
+                d = pfile.diff_obs(ref[3:], res[k])
+                if d:
+                    return '%s(paths in order %s): %s' % (nm, order, d)
     return None
 
 
@@ -194,6 +354,8 @@ def _expected_text(spec):
 
 
 def oracle(case, res):
+    if case['kind'] == 'ioapi':
+        return _oracle_ioapi(case, res)
     if case['kind'] == 'bad':
         return None
     if 'err' in res:
@@ -205,7 +367,21 @@ def oracle(case, res):
         if kind == 'maskloss':
             first = _core_oracle(case, res)
             return first or ('stack_files mask loss: ' + d)
-    return _core_oracle(case, res)
+    if 'mf_err' in res:
+        return 'multi-file front end raised %s' % res['mf_err']
+    return _core_oracle(case, res) or _mf_oracle(case, res)
+
+
+def _mf_oracle(case, res):
+    """the multi-file front ends: concatenation in ARGUMENT order of exactly the paths given (repeats included)"""
+    order = case.get('mf_order') or list(range(len(case['files'])))
+    c2 = dict(kind='indep', dim=case['dim'], files=[case['files'][i] for i in order])
+    for k, nm in (('mf1', 'pncmfopen'), ('mf2', 'open_mfdataset'), ('mf3', 'open_mfdataset without stackdim')):
+        if k in res:
+            d = _core_oracle(c2, dict(obs=res[k]))
+            if d:
+                return '%s(paths in order %s): %s' % (nm, order, d)
+    return None
 
 
 def _core_oracle(case, res):
@@ -256,6 +432,8 @@ def witnesses():
 
 
 def nontrivial(case, res):
+    if case['kind'] == 'ioapi':
+        return 'stack' in res
     if len(case['files']) < 2:
         return False
     return any(case['dim'] in v['dims'] and v['dims'].index(case['dim']) > 0 for v in case['files'][0]['vars'])
